@@ -598,6 +598,11 @@ class List(list, base.Symbolic, pg_typing.CustomTyping):
     old_value = self.sym_getattr(index)
     super().__delitem__(index)
 
+    # Detach old value from object tree.
+    if isinstance(old_value, base.TopologyAware):
+      old_value.sym_setparent(None)
+      old_value.sym_setpath(utils.KeyPath())
+
     if flags.is_change_notification_enabled():
       self._notify_field_updates([
           base.FieldUpdate(
@@ -715,7 +720,14 @@ class List(list, base.Symbolic, pg_typing.CustomTyping):
     if self._value_spec and self._value_spec.min_size > 0:
       raise ValueError(
           f'List cannot be cleared: min size is {self._value_spec.min_size}.')
+    old_values = list(self.sym_values())
     super().clear()
+
+    # Detach old values from object tree.
+    for old_value in old_values:
+      if isinstance(old_value, base.TopologyAware):
+        old_value.sym_setparent(None)
+        old_value.sym_setpath(utils.KeyPath())
 
   def sort(self, *, key=None, reverse=False) -> None:
     """Sorts the items of the list in place.."""
